@@ -21,7 +21,9 @@ UNITS = [
       note="all byte strings, plen <= 6000 (exact object bounds), every NULL/non-NULL combination; byte readers stubbed (C10.leaf_*)"),
     U("C07.rangeproof_rewind", ["C07", "C09"], "harness/C07/rangeproof_api.c", "h_rewind",
       replace=["secp256k1_rangeproof_genrand", "secp256k1_rangeproof_ch32xor"], assumed=ORACLES + RW_ORACLES,
-      functions=["secp256k1_rangeproof_rewind", "secp256k1_rangeproof_rewind_inner"] + FUNCS, loops=True,
-      timeout=3600, min_obl=300, unwind=34, unwindset=VLOOPS + RLOOPS, tier="thorough", closed_by=CLOSED + "; message copy loop by loop contract (hooks/C09_rewind_msgcopy.diff)",
-      note="needs hook C09_rewind_msgcopy in /repo; all byte strings, plen <= 6000, message buffer of every length <= 5000"),
+      functions=["secp256k1_rangeproof_rewind", "secp256k1_rangeproof_rewind_inner"] + FUNCS,
+      loop_contracts={"secp256k1_rangeproof_rewind_inner": {"for (b = 0; b < 32 && offset < *mlen; b++)": {
+          "assigns": "b, offset, __CPROVER_object_whole(m)", "invariants": "0 <= b && b <= 32 && offset <= *mlen", "decreases": "32 - b"}}},
+      timeout=3600, min_obl=300, unwind=34, unwindset=VLOOPS + RLOOPS, tier="thorough", closed_by=CLOSED + "; message copy loop by loop contract (engine-supplied --loop-contracts-file, no /repo edit)",
+      note="all byte strings, plen <= 6000, message buffer of every length <= 5000"),
 ]
